@@ -12,7 +12,8 @@
   code evaluates the first to `0 * inf = nan`, sanitised to `0`: for `p = 1` the Jacobian entry is
   `0` instead of `1`.)
 
-  Full statement of the refinement (not proved for the Hessian observation):
+  Full statement of the refinement (`param_refinement` below proves it, the Hessian observation at
+  regular points of a well-formed model; history of this file:
       theorem param_refinement (ops) (op : POp ℝ) (hreg : …regular at the observation point…) :
         let s := (prun e vs (pinit σ₀) ops).1
         (pstep e vs s op).2 = (pstep (substParams s.σ e) vs (pinit σ') op).2
@@ -22,10 +23,14 @@
   expressions with the same meaning *everywhere* have gradients with the same meaning — which
   follows from the derivative-correctness theorem of C02 (`grad` is the true partial derivative),
   not from the syntactic induction used here.  The Hessian observation is covered by the
-  fresh-constant-model oracle of c12.py on the real code.
+  fresh-constant-model oracle of c12.py on the real code.)
+  `param_refinement` closes that gap exactly this way (`Lemmas/ParamHess.lean`): the two models
+  mean the same function, so by the C02 theorem at every nearby regular point their symbolic first
+  and second derivatives mean the same.
 -/
 import Optyx.Lemmas.StateParam
 import Optyx.Lemmas.StateDegree
+import Optyx.Lemmas.ParamHess
 
 namespace Optyx.Props.C12
 open Optyx Optyx.Py Optyx.Py.State NumAlg
@@ -102,6 +107,50 @@ theorem param_refinement_partial (e : Expr) (vs : List Var) (σ₀ σ' : Nat →
   | callFn ρ => rw [h2, g2, denote_substParams]
   | callJac ρ => rw [h3, g3]; exact jac_call_substParams ρ s.σ σ' e vs (hreg ρ rfl)
   | callHess ρ => exact absurd rfl (hop ρ)
+
+/-- the Hessian artefact of the parametric model called under the current store = the freshly built
+    Hessian artefact of the constant model, at every regular point of a well-formed model (the two
+    symbolic Hessians are different trees; they mean the same because both are the second derivative of
+    the same function — C02 twice) -/
+theorem hess_call_substParams (ρ : String → ℝ) (σ σ' : Nat → Rat) (e : Expr) (vs : List Var)
+    (hwf : WF e) (hreg : Regular ρ (storeOf σ) e) :
+    ((buildHess e vs).map fun row => row.map fun d => denote ρ (storeOf σ) d) =
+      ((buildHess (substParams σ e) vs).map fun row => row.map fun d => denote ρ (storeOf σ') d) := by
+  simp only [buildHess, List.map_map]
+  apply List.map_congr_left
+  intro i _
+  simp only [Function.comp_def, List.map_map]
+  apply List.map_congr_left
+  intro j _
+  exact (hessEntry_substParams σ (storeOf σ') ρ _ _ e hwf hreg).symm
+
+/-- **C12, full refinement**: after any history of `set` / `evaluate` / compiled calls / Jacobian
+    calls / Hessian calls, *every* next observation — including the compiled Hessian — equals the
+    observation on a freshly built model in which every Parameter is a Constant holding its current
+    value.  Hypotheses: for a Jacobian call the point is regular for parametric exponents; for a Hessian
+    call the model is well-formed and the point regular (where derivatives exist at all). -/
+theorem param_refinement (e : Expr) (vs : List Var) (σ₀ σ' : Nat → Rat)
+    (ops : List (POp ℝ)) (op : POp ℝ)
+    (hregJ : ∀ ρ, op = .callJac ρ → RegularExponents ρ (prun e vs (pinit σ₀) ops).1.σ e)
+    (hregH : ∀ ρ, op = .callHess ρ → WF e ∧ Regular ρ (storeOf (prun e vs (pinit σ₀) ops).1.σ) e) :
+    (pstep e vs (prun e vs (pinit σ₀) ops).1 op).2 =
+      (pstep (substParams (prun e vs (pinit σ₀) ops).1.σ e) vs (pinit σ') op).2 := by
+  cases op with
+  | callHess ρ =>
+    have hinv := artefacts_independent_of_store e vs σ₀ ops
+    generalize (prun e vs (pinit σ₀) ops).1 = s at hinv hregH ⊢
+    obtain ⟨hwf, hreg⟩ := hregH ρ rfl
+    have h1 : (pstep e vs s (.callHess ρ)).2 =
+        ((buildHess e vs).map fun row => row.map fun d => denote ρ (storeOf s.σ) d).flatten := by
+      rcases hinv.2.2 with hh | hh <;> simp [pstep, hh]
+    have h2 : (pstep (substParams s.σ e) vs (pinit σ') (.callHess ρ)).2 =
+        ((buildHess (substParams s.σ e) vs).map fun row => row.map fun d => denote ρ (storeOf σ') d).flatten := by
+      simp [pstep, pinit]
+    rw [h1, h2, hess_call_substParams ρ s.σ σ' e vs hwf hreg]
+  | set o v => exact param_refinement_partial e vs σ₀ σ' ops _ (fun ρ h => by cases h) (fun ρ h => by cases h)
+  | evaluate ρ' => exact param_refinement_partial e vs σ₀ σ' ops _ (fun ρ h => by cases h) (fun ρ h => by cases h)
+  | callFn ρ' => exact param_refinement_partial e vs σ₀ σ' ops _ (fun ρ h => by cases h) (fun ρ h => by cases h)
+  | callJac ρ' => exact param_refinement_partial e vs σ₀ σ' ops _ (fun ρ h => by cases h) hregJ
 
 /-! ### non-vacuity -/
 
